@@ -13,7 +13,7 @@ func init() {
 	register(&Rule{ID: "CLONE-fields", Props: []string{"C17", "C20"}, Min: 25,
 		Doc: "O: in every clone function, each store into a reference-typed field (pointer, map, slice, interface, func, or struct containing one) of a struct being produced takes its value from a cloner call, the cloner's runtime, a fresh make/alloc whose elements are themselves cloned, or nil - never from the input object directly - unless the field/type is in the reviewed immutable table; a bulk copy *out = *in obliges every such field to be overwritten; struct literals built while cloning set every field of their type",
 		Run: ruleCloneFields})
-	register(&Rule{ID: "CLONE-positional", Props: []string{"C17", "C14"}, Min: 30,
+	register(&Rule{ID: "CLONE-positional", Props: []string{"C17", "C14", "C19"}, Min: 30,
 		Doc: "T: in the positional global{...} literal of (*runtime).clone, the i-th element is cloner.object(rt.global.<i-th field of struct global>): reordering the struct or the literal cross-wires the intrinsics of every copy",
 		Run: ruleClonePositional})
 	register(&Rule{ID: "CLONE-runtime-fields", Props: []string{"C17"}, Min: 10,
